@@ -99,7 +99,7 @@ func RunConc(cc *ConcConfig) []Mismatch {
 					}
 					active = l.TsName[len(l.TsName)-1]
 				}
-				if os.Rename(filepath.Join(dir, active), filepath.Join(dir, fmt.Sprintf("ext-%d.dat", extN))) == nil {
+				if os.Rename(filepath.Join(dir, active), filepath.Join(dir, ExtName(extN))) == nil {
 					extN++
 				}
 			}
